@@ -39,7 +39,17 @@ pub struct Violation {
 
 impl Violation {
     pub fn new(oracle: &str, signature: impl Into<String>, detail: impl Into<String>) -> Self {
-        Violation { oracle: oracle.to_string(), signature: signature.into(), detail: detail.into() }
+        // details may quote measurements: keep them bounded (plans with 2^18-entry vectors exist)
+        let mut detail: String = detail.into();
+        if detail.len() > 1500 {
+            let mut cut = 1500;
+            while !detail.is_char_boundary(cut) {
+                cut -= 1;
+            }
+            detail.truncate(cut);
+            detail.push('…');
+        }
+        Violation { oracle: oracle.to_string(), signature: signature.into(), detail }
     }
 }
 
